@@ -42,3 +42,234 @@ def spec_fast_len(c, z):
     n = c.call("pulsarbat.utils.prev_fast_len", g.N)
     data = A.getitem(c.ctx, g.data, SSlice(None, n, None))
     return construct(c, g.cls, data, g.attrs())
+
+
+# --------------------------------------------------------------------------- time_shift (C03, C01, C09)
+from pyvc.stubs_fft import opaque_op, sgnbin
+
+
+def same_width_dtype(dt, real):
+    """dtype of an FFT round trip at the precision of the input (scipy.fft keeps single precision)."""
+    single = dt.name in ("float32", "complex64", "float16")
+    if real:
+        return DType("float32" if single else "float64")
+    return DType("complex64" if single else "complex128")
+
+
+def shift_as_samples(c, g, shift):
+    """The three spellings of a shift: number of samples, array of samples, or time Quantity."""
+    if isinstance(shift, Qty):
+        if shift.dim != TIME_DIM:
+            raise PyExc("UnitConversionError", "shift must have units of time")
+        v = shift.val
+        if isinstance(v, SArr):
+            return A.elementwise(c.ctx, lambda x: V.mul(x, g.sr.val), [v], "float64")
+        return V.mul(v, g.sr.val)
+    return shift
+
+
+def shift_per_element(c, s, sample_shape):
+    """s_e for every element e of the sample shape: shift axes align with the leading sample
+    axes; length-1 shift axes broadcast; missing trailing axes broadcast."""
+    if not isinstance(s, SArr):
+        return (lambda e: s), [()], (lambda m: s)
+    r = s.ndim
+    for i in range(r):
+        d = s.shape[i]
+        if not (not is_sym(d) and d == 1):
+            c.raise_if(V.ne(d, sample_shape[i]), "ValueError", "shift does not broadcast against the sample shape")
+
+    def s_of(e):
+        return s.elem(tuple(0 if (not is_sym(s.shape[i]) and s.shape[i] == 1) else e[i] for i in range(r)))
+    import itertools
+    space = list(itertools.product(*[range(int(d)) for d in s.shape]))
+    return s_of, space, (lambda m: s.elem(m))
+
+
+def spec_time_shift(c, z, shift, crop=False):
+    """C03: DFT shift-theorem delay per element, exact zero-fill of out-of-range samples for every
+    element (also for broadcast shift axes), metadata unchanged; crop removes exactly the edge samples."""
+    ctx = c.ctx
+    g = c.view(z)
+    N = g.N
+    s = shift_as_samples(c, g, shift)
+    if isinstance(s, SArr) and s.ndim >= g.data.ndim:
+        raise PyExc("ValueError", "shift has too many dimensions")
+    S = g.data.shape[1:]
+    s_of, space, s_at = shift_per_element(c, s, S)
+    tiny = Fraction(1, 10 ** 8)
+    allzero = V.And(*[V.And(V.le(s_at(m), tiny), V.le(V.neg(tiny), s_at(m))) for m in space])
+    if c.branch(allzero, "all shifts are zero"):
+        return z
+    F = opaque_op(ctx, "fft", g.data, 0)
+    two_pi = V.mul(2, V.PI)
+
+    def ramp(ix):
+        theta = V.neg(V.div(ctx, V.mul(V.mul(two_pi, s_of(ix[1:])), sgnbin(N, ix[0])), N))
+        return V.cis(theta)
+    R = SArr((N,) + tuple(S), ramp, "complex64", g.data.backend)
+    prod = A.elementwise(ctx, V.cmul, [F, R], F.dtype)
+    Y = opaque_op(ctx, "ifft", prod, 0)
+    real_in = not g.data.is_complex
+    out_dt = same_width_dtype(g.data.dtype, real_in)
+
+    def zero_region(ix):
+        k, se = ix[0], s_of(ix[1:])
+        pos = V.And(V.le(0, se), V.lt(k, V.ceil_real(ctx, se)))
+        neg = V.And(V.lt(se, 0), V.le(V.add(N, V.floor_real(ctx, se)), k))
+        return V.Or(pos, neg)
+
+    def out_elem(ix):
+        y = Y.elem(ix)
+        if real_in:
+            return V.Ite(zero_region(ix), 0, Cx.of(y).re)
+        return V.Ite(zero_region(ix), Cx(0, 0), Cx.of(y))
+    data = SArr(Y.shape, out_elem, out_dt, g.data.backend)
+    data.exact_zero = lambda ix: bool(V.conc(zero_region(ix)) is True)
+    attrs = g.attrs()
+    if not c.branch(c.interp.truthy_sym(crop, ctx), "crop"):
+        return construct(c, g.cls, data, attrs)
+    start, stop = 0, 0
+    for m in space:
+        sm = s_at(m)
+        start = V.vmax(start, V.Ite(V.le(0, sm), V.ceil_real(ctx, sm), 0))
+        stop = V.vmin(stop, V.Ite(V.lt(sm, 0), V.floor_real(ctx, sm), 0))
+    sl = SSlice(V.simp(start), V.simp(V.add(N, stop)), None)
+    a, b, st = A.slice_adjust(ctx, sl, N)
+    if g.t0 is not None:
+        attrs["start_time"] = time_plus(c, g.t0, V.div(ctx, a, g.sr.val))
+    return construct(c, g.cls, A.getitem(ctx, data, sl), attrs)
+
+
+def shift_value(nm, ctx, kind, name="sh"):
+    if kind == "scalar":
+        return nm.real(name)
+    raise ValueError(kind)
+
+
+# sample dimensions are concrete (2 or 3) so that the element loop of the real code can be executed
+# whichever index space it iterates over; the signal length N and all values stay symbolic.
+SHIFT_CONFIGS = [
+    # label, class, extra_rank, fixed dims {axis: n}, shift builder
+    ("scalar,rank1", "Signal", 0, {}, ("scalar",)),
+    ("scalar,S=(3,)", "Signal", 1, {1: 3}, ("scalar",)),
+    ("scalar,S=(2,2)", "DualPolarizationSignal", 0, {1: 2}, ("scalar",)),
+    ("quantity,S=(2,)", "RadioSignal", 0, {1: 2}, ("quantity",)),
+    ("arr(2),S=(2,)", "Signal", 1, {1: 2}, ("array", (2,))),
+    ("arr(1),S=(3,)", "Signal", 1, {1: 3}, ("array", (1,))),
+    ("arr(2),S=(2,3)", "BasebandSignal", 1, {1: 2, 2: 3}, ("array", (2,))),
+    ("arr(2,1),S=(2,3)", "BasebandSignal", 1, {1: 2, 2: 3}, ("array", (2, 1))),
+    ("arr(1,2),S=(3,2)", "DualPolarizationSignal", 0, {1: 3}, ("array", (1, 2))),
+    ("arr(2,2),S=(2,2)", "DualPolarizationSignal", 0, {1: 2}, ("array", (2, 2))),
+    ("arr(3),S=(3,)", "IntensitySignal", 0, {1: 3}, ("array", (3,))),
+    ("arr(2),rank1-too-many", "Signal", 0, {}, ("array", (2,))),
+    ("qarr(2),S=(2,)", "RadioSignal", 0, {1: 2}, ("qarray", (2,))),
+]
+
+
+def inst_time_shift():
+    out = []
+    for label, cls, extra, dims, sb in SHIFT_CONFIGS:
+        for dt, be in ((None, "numpy"), ("single", "numpy"), (None, "dask")):
+            for crop in (False, True):
+                def build(interp, ctx, nm, cls=cls, extra=extra, dims=dims, sb=sb, dt=dt, be=be, crop=crop):
+                    from pyvc.sigmodel import DEFAULT_DTYPE
+                    d = DEFAULT_DTYPE[cls]
+                    if dt == "single":
+                        d = {"float64": "float32", "complex128": "complex64"}[d]
+                    z = mk_signal(interp, ctx, "z", cls, extra_rank=extra, dims=dims, dtype=d, backend=be, min_len=1, nm=nm)
+                    if sb[0] == "scalar":
+                        sh = nm.real("sh")
+                    elif sb[0] == "quantity":
+                        sh = Qty(nm.real("sh_t", Fraction(7, 2000)), TIME_DIM, interp.stubs.units["s"])
+                    elif sb[0] == "array":
+                        sh = sym_array("sh", sb[1], "float64", nm=nm, scale=3)
+                    else:
+                        sh = Qty(sym_array("sh_t", sb[1], "float64", nm=nm, scale=3), TIME_DIM, interp.stubs.units["s"])
+                    return (z, sh), {"crop": crop}
+                out.append(Instance(f"{label},{cls},{dt or 'double'},{be},crop={int(crop)}", build))
+    return out
+
+
+_ts = Contract("pulsarbat.transforms.transforms.time_shift", spec_time_shift, inst_time_shift(), props={"C03": None, "C01": TIME_PARTS, "C09": None})
+CONTRACTS.append(_ts)
+
+
+# --------------------------------------------------------------------------- freq_shift (C04, C09)
+
+def spec_freq_shift(c, z, shift):
+    """C04: multiply by exp(2 pi i df t), zero every bin content would wrap into, for every element
+    of the sample shape (scalar or broadcast shift); type, dtype, rate, start and labels unchanged."""
+    ctx = c.ctx
+    if not isinstance(z, Obj) or not any(k.name == "BasebandSignal" for k in z.cls.mro()):
+        raise PyExc("TypeError", "Signal must be a BasebandSignal object")
+    g = c.view(z)
+    N = g.N
+    if not isinstance(shift, Qty) or shift.dim != FREQ_DIM:
+        raise PyExc("ValueError", "shift must be a Quantity with units of frequency")
+    sv = shift.val
+    s = sv if isinstance(sv, SArr) else SArr((1,), lambda ix: sv, "float64")
+    if s.ndim >= g.data.ndim:
+        raise PyExc("ValueError", "shift has too many dimensions")
+    S = g.data.shape[1:]
+    s_of, space, s_at = shift_per_element(c, s, S)
+    sr = g.sr.val
+
+    def ft_of(e):
+        return V.div(ctx, s_of(e), sr)
+    two_pi = V.mul(2, V.PI)
+    M = SArr((N,) + tuple(S), lambda ix: V.cis(V.mul(V.mul(two_pi, ft_of(ix[1:])), ix[0])), g.data.dtype, g.data.backend)
+    mixed = A.elementwise(ctx, V.cmul, [g.data, M], g.data.dtype)
+    F = opaque_op(ctx, "fft", mixed, 0)
+    Xs = c.interp.stubs.fftshift(ctx, F, (0,), False)
+
+    def zero_region(ix):
+        p, a = ix[0], V.mul(ft_of(ix[1:]), N)
+        pos = V.And(V.le(0, a), V.lt(p, V.ceil_real(ctx, a)))
+        neg = V.And(V.lt(a, 0), V.le(V.add(N, V.floor_real(ctx, a)), p))
+        return V.Or(pos, neg)
+    Xz = SArr(Xs.shape, lambda ix: V.Ite(zero_region(ix), Cx(0, 0), Cx.of(Xs.elem(ix))), Xs.dtype, Xs.backend)
+    Xi = c.interp.stubs.fftshift(ctx, Xz, (0,), True)
+    Y = opaque_op(ctx, "ifft", Xi, 0)
+    return construct(c, g.cls, Y, g.attrs())
+
+
+FSHIFT_CONFIGS = [
+    ("scalar,S=(2,)", "BasebandSignal", 0, {1: 2}, ("scalar",)),
+    ("scalar,S=(1,)", "BasebandSignal", 0, {1: 1}, ("scalar",)),
+    ("scalar,S=(2,2)", "DualPolarizationSignal", 0, {1: 2}, ("scalar",)),
+    ("arr(2),S=(2,)", "BasebandSignal", 0, {1: 2}, ("array", (2,))),
+    ("arr(1),S=(3,)", "BasebandSignal", 0, {1: 3}, ("array", (1,))),
+    ("arr(2),S=(2,2)", "DualPolarizationSignal", 0, {1: 2}, ("array", (2,))),
+    ("arr(2,1),S=(2,2)", "DualPolarizationSignal", 0, {1: 2}, ("array", (2, 1))),
+    ("arr(1,2),S=(3,2)", "DualPolarizationSignal", 0, {1: 3}, ("array", (1, 2))),
+    ("arr(2,2),S=(2,2)", "DualPolarizationSignal", 0, {1: 2}, ("array", (2, 2))),
+    ("arr(2,2),rank-too-many", "BasebandSignal", 0, {1: 2}, ("array", (2, 2))),
+    ("not-baseband", "IntensitySignal", 0, {1: 2}, ("scalar",)),
+    ("wrong-unit", "BasebandSignal", 0, {1: 2}, ("wrong-unit",)),
+    ("plain-number", "BasebandSignal", 0, {1: 2}, ("number",)),
+]
+
+
+def inst_freq_shift():
+    out = []
+    for label, cls, extra, dims, sb in FSHIFT_CONFIGS:
+        for dt, be in (("complex128", "numpy"), ("complex64", "numpy"), ("complex128", "dask")):
+            def build(interp, ctx, nm, cls=cls, extra=extra, dims=dims, sb=sb, dt=dt, be=be):
+                d = dt if cls != "IntensitySignal" else "float64"
+                z = mk_signal(interp, ctx, "z", cls, extra_rank=extra, dims=dims, dtype=d, backend=be, min_len=1, align="bottom", nm=nm)
+                U = interp.stubs.units
+                if sb[0] == "scalar":
+                    sh = Qty(nm.real("df", 137), FREQ_DIM, U["Hz"])
+                elif sb[0] == "array":
+                    sh = Qty(sym_array("df", sb[1], "float64", nm=nm, scale=400), FREQ_DIM, U["Hz"])
+                elif sb[0] == "wrong-unit":
+                    sh = Qty(nm.real("df", 1), TIME_DIM, U["s"])
+                else:
+                    sh = nm.real("df", 1)
+                return (z, sh), {}
+            out.append(Instance(f"{label},{cls},{dt},{be}", build))
+    return out
+
+
+CONTRACTS.append(Contract("pulsarbat.transforms.transforms.freq_shift", spec_freq_shift, inst_freq_shift(), props={"C04": None, "C09": None}))
